@@ -1,3 +1,312 @@
+import Bch.Proofs.Address
+/-
+C01 — "Every constructible address survives encode -> decode unchanged."
+
+All theorems are about the executable models `Bch.Model.CashAddr` / `Bch.Model.Address`
+(`convertBits`, `polyMod`, `encode`, `DecodeCashAddress`, `EncodeAddress`, `DecodeAddress`, …) that are
+differentially tested against /repo/address.go. External code is the parameter pack `X : Ext`
+(hashes, `bchec.ParsePubKey`, `Serialize*`); every hypothesis on it is explicit.
+Proofs: `Bch/Proofs/CashAddrBits.lean` (regrouping), `CashAddrPoly.lean` (checksum linearity),
+`CashAddr.lean` (character level), `Address.lean` (the `DecodeAddress` cascade), `Base58*.lean`, `Hex.lean`.
+
+Not covered here (see the report): `C01_script_ctors` (the model has no script-taking constructors; the
+harness driver composes `newSh (X.hash160 script)` itself, and the round trips below quantify over every
+hash) and `C01_spec_strings` against an independent `Spec` transcription (only the structural form
+`C01_cash_string_form` and the published test vector are given).
+-/
 namespace Bch.Props.C01
-theorem placeholder : True := trivial
+open Bch Bch.Model Bch.Model.CashAddr Bch.Model.Address
+open Bch.Proofs.CashAddr Bch.Proofs.Address
+
+/-! ### 1. the 8 ↔ 5 bit regrouping -/
+
+/-- Packing bytes into 5-bit symbols (with padding) always succeeds, yields symbols `< 32`, and
+unpacking (strict, no padding) gives the bytes back — for every byte list. -/
+theorem convertBits_8_5_roundtrip : ∀ bs : Bytes, ∃ v, convertBits bs 8 5 true = some v ∧
+    (∀ x ∈ v, x.toNat < 32) ∧ v.length = (8 * bs.length + 4) / 5 ∧ convertBits v 5 8 false = some bs :=
+  Bch.Proofs.CashAddr.convertBits_8_5_roundtrip
+
+/-- Whatever the strict unpacking accepts is exactly the packing of its result: unpacking is injective
+on accepted inputs. -/
+theorem convertBits_5_8_canonical : ∀ v bs : Bytes, convertBits v 5 8 false = some bs →
+    (∀ x ∈ v, x.toNat < 32) → convertBits bs 8 5 true = some v :=
+  Bch.Proofs.CashAddr.convertBits_5_8_canonical
+
+/-- The strict unpacking rejects exactly the symbol lists with five or more padding bits or with a
+non-zero padding bit (`beVal 5` is the big-endian number the symbols spell). -/
+theorem convertBits_rejects_padding : ∀ v : Bytes, (∀ x ∈ v, x.toNat < 32) →
+    (convertBits v 5 8 false = none ↔
+      (5 ≤ 5 * v.length % 8 ∨ beVal 5 (v.map UInt8.toNat) % 2 ^ (5 * v.length % 8) ≠ 0)) :=
+  Bch.Proofs.CashAddr.convertBits_rejects_padding
+
+/-- tests -/
+example : convertBits [0xff] 8 5 true = some [31, 28] := by decide
+example : convertBits [31, 28] 5 8 false = some [0xff] := by decide
+example : convertBits [31, 29] 5 8 false = none := by decide   -- non-zero padding bit
+example : convertBits [0] 5 8 false = none := by decide        -- five padding bits
+example : ∀ x ∈ ([31, 28] : Bytes), x.toNat < 32 := by decide  -- hypothesis of `_canonical` is satisfiable
+
+/-! ### 2. the checksum -/
+
+/-- The `polyMod` state never leaves 40 bits (so the model's `Nat` arithmetic is the Go `uint64` one). -/
+theorem polyMod_lt : ∀ v : Bytes, polyMod v < 2 ^ 40 := Bch.Proofs.CashAddr.polyMod_lt
+
+/-- One `polyMod` step is GF(2)-linear jointly in (state, symbol). -/
+theorem polyModStep_linear : ∀ (a b : Nat) (x y : UInt8),
+    polyModStep (a ^^^ b) (x ^^^ y) = polyModStep a x ^^^ polyModStep b y :=
+  Bch.Proofs.CashAddr.polyModStep_xor
+
+/-- `createChecksum` yields eight 5-bit symbols. -/
+theorem createChecksum_spec : ∀ pre pl : Bytes,
+    (createChecksum pre pl).length = 8 ∧ ∀ x ∈ createChecksum pre pl, x.toNat < 32 :=
+  fun pre pl => ⟨createChecksum_length pre pl, createChecksum_lt pre pl⟩
+
+/-- **verify_create**: the created checksum verifies — for every prefix and payload (no hypothesis). -/
+theorem verify_create : ∀ pre pl : Bytes, verifyChecksum pre (pl ++ createChecksum pre pl) = true :=
+  Bch.Proofs.CashAddr.verify_create
+
+/-- … and it is the only 8-symbol checksum that verifies. -/
+theorem verify_unique : ∀ pre pl ck : Bytes, ck.length = 8 → (∀ x ∈ ck, x.toNat < 32) →
+    (verifyChecksum pre (pl ++ ck) = true ↔ ck = createChecksum pre pl) :=
+  Bch.Proofs.CashAddr.verify_iff
+
+/-- The SLP retry relies on this finite fact: for the five networks with an SLP prefix and both payload
+lengths, the (hash-independent) difference of the cash-prefix and SLP-prefix checksums is non-zero. -/
+theorem slp_cash_checksums_differ : ∀ net ∈ nets, net.slpPrefix ≠ [] →
+    prefixDelta net.slpPrefix net.cashPrefix 42 ≠ 0 ∧ prefixDelta net.slpPrefix net.cashPrefix 61 ≠ 0 :=
+  Bch.Proofs.Address.slp_cash_checksums_differ
+
+/-- Consequence for EVERY payload of the two lengths: a string with a valid SLP checksum never
+verifies under the cash prefix. -/
+theorem slp_not_cash : ∀ net ∈ nets, net.slpPrefix ≠ [] → ∀ pl : Bytes,
+    (pl.length = 34 ∨ pl.length = 53) →
+    verifyChecksum net.cashPrefix (pl ++ createChecksum net.slpPrefix pl) = false :=
+  Bch.Proofs.Address.slp_not_cash
+
+/-! ### 3. `DecodeCashAddress ∘ encode` -/
+
+/-- For a non-empty lower-case alphabetic prefix and a 5-bit payload, `encode` succeeds, produces
+lower-case letters / digits only, and `prefix:string` decodes to exactly (prefix, payload) — as is and
+upper-cased. -/
+theorem decodeCash_encode : ∀ pre pl : Bytes, pre ≠ [] → (∀ c ∈ pre, isLow c = true) →
+    (∀ x ∈ pl, x.toNat < 32) →
+    ∃ s, encode pre pl = some s ∧ s.length = pl.length + 8 ∧
+      (∀ c ∈ s, (isLow c || isDig c) = true) ∧
+      DecodeCashAddress (pre ++ [58] ++ s) = .ok (pre, pl) ∧
+      DecodeCashAddress (upperASCII (pre ++ [58] ++ s)) = .ok (pre, pl) :=
+  Bch.Proofs.CashAddr.decodeCash_encode
+
+/-- `encode` fails (Go: index-out-of-range panic) exactly when a payload symbol is ≥ 32. -/
+theorem encode_isSome_iff : ∀ pre pl : Bytes, (encode pre pl).isSome ↔ ∀ x ∈ pl, x.toNat < 32 :=
+  Bch.Proofs.CashAddr.encode_isSome_iff
+
+/-- non-vacuity of the hypotheses of `decodeCash_encode` -/
+example : ([98, 99, 104] : Bytes) ≠ [] ∧ (∀ c ∈ ([98, 99, 104] : Bytes), isLow c = true) ∧
+    (∀ x ∈ ([0, 31, 7] : Bytes), x.toNat < 32) := by decide
+
+/-! ### 4./5. CashAddr and SLP addresses through `DecodeAddress` -/
+
+/-- the renderings fed back to the decoder: as is, UPPER-CASED, `prefix:`-qualified, qualified and
+upper-cased -/
+example (pre s : Bytes) : renderings pre s =
+    [s, upperASCII s, pre ++ [58] ++ s, upperASCII (pre ++ [58] ++ s)] := rfl
+
+/-- **C01_cash_roundtrip** (full). For every network, every address `a` the constructors
+`NewAddressPubKeyHash` / `NewAddressScriptHashFromHash` / `NewAddressScriptHash32FromHash` return for the
+network's cash prefix (i.e. every 20-byte resp. 32-byte hash), and each of the four renderings of
+`EncodeAddress a`: `DecodeAddress` returns the very same address value. -/
+theorem C01_cash_roundtrip (X : Ext) : ∀ net ∈ nets, ∀ (h : Bytes) (a : Addr),
+    (newPkh h net.cashPrefix = .ok a ∨ newSh h net.cashPrefix = .ok a ∨ newSh32 h net.cashPrefix = .ok a) →
+    ∀ r ∈ renderings net.cashPrefix (EncodeAddress X a), DecodeAddress X r net = .ok a := by
+  intro net hnet h a ha r hr
+  have hwf := nets_wf hnet
+  rcases ha with ha | ha | ha
+  · unfold newPkh at ha; split at ha; · cases ha
+    rename_i hl; cases ha
+    exact cash_roundtrip X net hwf 0 0 h (Or.inl ⟨rfl, rfl, by simpa using hl⟩) r hr
+  · unfold newSh at ha; split at ha; · cases ha
+    rename_i hl; cases ha
+    exact cash_roundtrip X net hwf 1 8 h (Or.inr (Or.inl ⟨rfl, rfl, by simpa using hl⟩)) r hr
+  · unfold newSh32 at ha; split at ha; · cases ha
+    rename_i hl; cases ha
+    exact cash_roundtrip X net hwf 2 11 h (Or.inr (Or.inr ⟨rfl, rfl, by simpa using hl⟩)) r hr
+
+/-- The observable consequences listed in the property: same kind (indeed the same value), same script
+payload, identical re-encoding and string, membership of the network asked for. -/
+theorem C01_cash_roundtrip_observables (X : Ext) : ∀ net ∈ nets, ∀ (h : Bytes) (a : Addr),
+    (newPkh h net.cashPrefix = .ok a ∨ newSh h net.cashPrefix = .ok a ∨ newSh32 h net.cashPrefix = .ok a) →
+    ∀ r ∈ renderings net.cashPrefix (EncodeAddress X a), ∃ a', DecodeAddress X r net = .ok a' ∧ a' = a ∧
+      ScriptAddress X a' = h ∧ EncodeAddress X a' = EncodeAddress X a ∧
+      Address.String X a' = EncodeAddress X a ∧ IsForNet a' net = true := by
+  intro net hnet h a ha r hr
+  refine ⟨a, C01_cash_roundtrip X net hnet h a ha r hr, rfl, ?_⟩
+  rcases ha with ha | ha | ha
+  · unfold newPkh at ha; split at ha; · cases ha
+    cases ha; simp [ScriptAddress, Address.String, IsForNet]
+  · unfold newSh at ha; split at ha; · cases ha
+    cases ha; simp [ScriptAddress, Address.String, IsForNet]
+  · unfold newSh32 at ha; split at ha; · cases ha
+    cases ha; simp [ScriptAddress, Address.String, IsForNet]
+
+/-- **C01_slp_roundtrip** (full). The same for the three SLP forms on every network that defines an SLP
+prefix. No hypothesis on the hash remains: that the cash-prefix attempt on an unqualified SLP string
+ends in a checksum mismatch (so that the SLP retry happens) follows from `slp_not_cash`. -/
+theorem C01_slp_roundtrip (X : Ext) : ∀ net ∈ nets, net.slpPrefix ≠ [] → ∀ (h : Bytes) (a : Addr),
+    (newPkh h net.slpPrefix = .ok a ∨ newSh h net.slpPrefix = .ok a ∨ newSh32 h net.slpPrefix = .ok a) →
+    ∀ r ∈ renderings net.slpPrefix (EncodeAddress X a), DecodeAddress X r net = .ok a := by
+  intro net hnet hslp h a ha r hr
+  rcases ha with ha | ha | ha
+  · unfold newPkh at ha; split at ha; · cases ha
+    rename_i hl; cases ha
+    exact slp_roundtrip X net hnet hslp 0 0 h (Or.inl ⟨rfl, rfl, by simpa using hl⟩) r hr
+  · unfold newSh at ha; split at ha; · cases ha
+    rename_i hl; cases ha
+    exact slp_roundtrip X net hnet hslp 1 8 h (Or.inr (Or.inl ⟨rfl, rfl, by simpa using hl⟩)) r hr
+  · unfold newSh32 at ha; split at ha; · cases ha
+    rename_i hl; cases ha
+    exact slp_roundtrip X net hnet hslp 2 11 h (Or.inr (Or.inr ⟨rfl, rfl, by simpa using hl⟩)) r hr
+
+/-- Script payload and re-encoding of a decoded SLP address (network membership is not claimed for SLP
+forms: `IsForNet` compares with the cash prefix). -/
+theorem C01_slp_roundtrip_observables (X : Ext) : ∀ net ∈ nets, net.slpPrefix ≠ [] →
+    ∀ (h : Bytes) (a : Addr),
+    (newPkh h net.slpPrefix = .ok a ∨ newSh h net.slpPrefix = .ok a ∨ newSh32 h net.slpPrefix = .ok a) →
+    ∀ r ∈ renderings net.slpPrefix (EncodeAddress X a), ∃ a', DecodeAddress X r net = .ok a' ∧ a' = a ∧
+      ScriptAddress X a' = h ∧ EncodeAddress X a' = EncodeAddress X a := by
+  intro net hnet hslp h a ha r hr
+  refine ⟨a, C01_slp_roundtrip X net hnet hslp h a ha r hr, rfl, ?_, rfl⟩
+  rcases ha with ha | ha | ha
+  · unfold newPkh at ha; split at ha; · cases ha
+    cases ha; rfl
+  · unfold newSh at ha; split at ha; · cases ha
+    cases ha; rfl
+  · unfold newSh32 at ha; split at ha; · cases ha
+    cases ha; rfl
+
+/-- The string form is the one the CashAddr specification prescribes: version byte
+`type << 3 | sizecode` (0x00 P2PKH, 0x08 P2SH, 0x0b P2SH32) followed by the hash, regrouped into 5-bit
+symbols with zero padding, followed by the 8-symbol BCH checksum over prefix‖0‖payload, every symbol
+mapped through the charset. -/
+theorem C01_cash_string_form (X : Ext) (pre h : Bytes) :
+    (h.length = 20 → ∃ pl, convertBits (0x00 :: h) 8 5 true = some pl ∧
+      EncodeAddress X (.pkh h pre) = (pl ++ createChecksum pre pl).map chOf) ∧
+    (h.length = 20 → ∃ pl, convertBits (0x08 :: h) 8 5 true = some pl ∧
+      EncodeAddress X (.sh h pre) = (pl ++ createChecksum pre pl).map chOf) ∧
+    (h.length = 32 → ∃ pl, convertBits (0x0b :: h) 8 5 true = some pl ∧
+      EncodeAddress X (.sh32 h pre) = (pl ++ createChecksum pre pl).map chOf) := by
+  refine ⟨fun hl => ?_, fun hl => ?_, fun hl => ?_⟩
+  · obtain ⟨pl, h1, _, _, _, _, h6⟩ := encodeAddress_cash X 0 0 h pre (Or.inl ⟨rfl, rfl, hl⟩)
+    exact ⟨pl, h1, h6⟩
+  · obtain ⟨pl, h1, _, _, _, _, h6⟩ := encodeAddress_cash X 1 8 h pre (Or.inr (Or.inl ⟨rfl, rfl, hl⟩))
+    exact ⟨pl, h1, h6⟩
+  · obtain ⟨pl, h1, _, _, _, _, h6⟩ := encodeAddress_cash X 2 11 h pre (Or.inr (Or.inr ⟨rfl, rfl, hl⟩))
+    exact ⟨pl, h1, h6⟩
+
+/-! ### 6. legacy Base58Check addresses -/
+
+/-- **C01_legacy_roundtrip** (full). Legacy P2PKH / P2SH addresses of every network decode back to the
+same value through the Base58Check stage; the earlier stages fall through because the string has 25…35
+alphabet characters (no colon, not 42/61 long — so neither CashAddr attempt can succeed — and not
+66/130 long). Only hypothesis on the double SHA-256: at least 4 output bytes (it has 32). -/
+theorem C01_legacy_roundtrip (X : Ext) (hsha : ∀ x, 4 ≤ (X.sha256d x).length) :
+    ∀ net ∈ nets, ∀ (h : Bytes) (a : Addr),
+    (newLegacyPkh h net.pkhID = .ok a ∨ newLegacySh h net.shID = .ok a) →
+    DecodeAddress X (EncodeAddress X a) net = .ok a ∧ Address.String X a = EncodeAddress X a ∧
+      ScriptAddress X a = h ∧ IsForNet a net = true := by
+  intro net hnet h a ha
+  have hwf := nets_wf hnet
+  have hids := nets_ids net hnet
+  simp only [idsOKb, Bool.and_eq_true, Bool.not_eq_true', List.contains_iff_mem] at hids
+  simp only [List.contains_eq_mem, decide_eq_false_iff_not] at hids
+  obtain ⟨⟨⟨hp1, hp2⟩, hs1⟩, hs2⟩ := hids
+  rcases ha with ha | ha
+  · unfold newLegacyPkh at ha; split at ha; · cases ha
+    rename_i hl; cases ha
+    have hl : h.length = 20 := by simpa using hl
+    have htake : h.take 20 = h := List.take_of_length_le (by omega)
+    refine ⟨?_, rfl, rfl, by simp [IsForNet]⟩
+    simp only [EncodeAddress, htake]
+    rw [legacy_decode X net hwf h hl _ hsha]
+    simp [hp1]
+  · unfold newLegacySh at ha; split at ha; · cases ha
+    rename_i hl; cases ha
+    have hl : h.length = 20 := by simpa using hl
+    have htake : h.take 20 = h := List.take_of_length_le (by omega)
+    refine ⟨?_, rfl, rfl, by simp [IsForNet]⟩
+    simp only [EncodeAddress, htake]
+    rw [legacy_decode X net hwf h hl _ hsha]
+    simp [hs1, hs2]
+
+/-! ### 7. raw public keys -/
+
+/-- **C01_pubkey_roundtrip** (full, under per-key `bchec` laws). Let `ser = X.serPub fmt pt` be the
+serialisation of a point in format `fmt` (1 compressed, 0 uncompressed, 2 hybrid). If it parses back to
+`pt`, is 33 or 65 bytes long and starts with a format byte of that format (02/03, 04, 06/07), then the
+constructor returns `.pubKey fmt pt`, and its hex string — lower or upper case — decodes to the same
+value on every network. The CashAddr attempts fall through (a 66/130-character string cannot carry a
+42/61-symbol payload), whatever error they end in. -/
+theorem C01_pubkey_roundtrip (X : Ext) (fmt : Nat) (pt : Bytes)
+    (hparse : X.parsePub (X.serPub fmt pt) = some pt)
+    (hlen : (X.serPub fmt pt).length = 33 ∨ (X.serPub fmt pt).length = 65)
+    (hhead : fmtOfHead ((X.serPub fmt pt).headD 0) = some fmt) :
+    ∀ net ∈ nets,
+      newPubKey X (X.serPub fmt pt) net = .ok (.pubKey fmt pt net.pkhID) ∧
+      (∀ r ∈ [Address.String X (.pubKey fmt pt net.pkhID),
+              upperASCII (Address.String X (.pubKey fmt pt net.pkhID))],
+        DecodeAddress X r net = .ok (.pubKey fmt pt net.pkhID)) ∧
+      ScriptAddress X (.pubKey fmt pt net.pkhID) = X.serPub fmt pt ∧
+      IsForNet (.pubKey fmt pt net.pkhID) net = true := by
+  intro net hnet
+  have hwf := nets_wf hnet
+  have hnew : newPubKey X (X.serPub fmt pt) net = .ok (.pubKey fmt pt net.pkhID) := by
+    rw [newPubKey_eq, hparse, hhead]
+  obtain ⟨h1, h2⟩ := pubkey_decode X net hwf (X.serPub fmt pt) hlen
+  refine ⟨hnew, ?_, rfl, by simp [IsForNet]⟩
+  intro r hr
+  simp only [Address.String, serialize, List.mem_cons, List.not_mem_nil, or_false] at hr
+  rcases hr with rfl | rfl
+  · rw [h1, hnew]
+  · rw [h2, hnew]
+
+/-- the format byte classification used above, spelled out -/
+example : fmtOfHead 2 = some 1 ∧ fmtOfHead 3 = some 1 ∧ fmtOfHead 4 = some 0 ∧ fmtOfHead 6 = some 2 ∧
+    fmtOfHead 7 = some 2 ∧ fmtOfHead 5 = none ∧ fmtOfHead 0 = none := by decide
+
+/-! ### 10. non-vacuity and test vectors (tests, not the claim) -/
+
+/-- a toy parameter pack satisfying every hypothesis used above (hash outputs of the right length, a
+"compressed" key format: 0x02 ‖ 32 bytes) -/
+def Xtoy : Ext where
+  sha256d := fun _ => List.replicate 32 7
+  hash160 := fun _ => List.replicate 20 1
+  hash256 := fun _ => List.replicate 32 2
+  parsePub := fun ser => if ser.headD 0 = 2 ∧ ser.length = 33 then some (ser.drop 1) else none
+  serPub := fun _ pt => 2 :: pt
+
+example : ∀ x, 4 ≤ (Xtoy.sha256d x).length := fun _ => by simp [Xtoy]
+example : Xtoy.parsePub (Xtoy.serPub 1 (List.replicate 32 9)) = some (List.replicate 32 9) ∧
+    ((Xtoy.serPub 1 (List.replicate 32 9)).length = 33 ∨ (Xtoy.serPub 1 (List.replicate 32 9)).length = 65) ∧
+    fmtOfHead ((Xtoy.serPub 1 (List.replicate 32 9)).headD 0) = some 1 := by decide
+example : mainNet ∈ nets ∧ simNet ∈ nets ∧ mainNet.slpPrefix ≠ [] ∧ simNet.slpPrefix = [] := by decide +kernel
+example : newPkh (List.replicate 20 0) mainNet.cashPrefix = .ok (.pkh (List.replicate 20 0) mainNet.cashPrefix) ∧
+    newSh32 (List.replicate 32 0) mainNet.slpPrefix = .ok (.sh32 (List.replicate 32 0) mainNet.slpPrefix) ∧
+    newLegacySh (List.replicate 20 0) mainNet.shID = .ok (.legacySh (List.replicate 20 0) mainNet.shID) := by
+  decide +kernel
+
+/-- CashAddr specification vector: the all-zero 20-byte hash as P2PKH on mainnet -/
+example : EncodeAddress Xtoy (.pkh (List.replicate 20 0) mainNet.cashPrefix)
+    = Bytes.ofString "qqqqqqqqqqqqqqqqqqqqqqqqqqqqqqqqqqfnhks603" := by decide +kernel
+example : DecodeAddress Xtoy (Bytes.ofString "bitcoincash:qqqqqqqqqqqqqqqqqqqqqqqqqqqqqqqqqqfnhks603") mainNet
+    = .ok (.pkh (List.replicate 20 0) mainNet.cashPrefix) := by decide +kernel
+example : DecodeAddress Xtoy (Bytes.ofString "QQQQQQQQQQQQQQQQQQQQQQQQQQQQQQQQQQFNHKS603") mainNet
+    = .ok (.pkh (List.replicate 20 0) mainNet.cashPrefix) := by decide +kernel
+/-- mixed case is rejected (falls through to Base58, which does not know '0') -/
+example : DecodeAddress Xtoy (Bytes.ofString "bitcoincash:Qqqqqqqqqqqqqqqqqqqqqqqqqqqqqqqqqqfnhks603") mainNet
+    = .error .unknownFormat := by decide +kernel
+/-- P2SH32 (version byte 0x0b, 61 symbols) on regtest, and an SLP P2PKH string decoded via the retry -/
+example : (EncodeAddress Xtoy (.sh32 (List.replicate 32 0xff) regTest.cashPrefix)).length = 61 := by
+  decide +kernel
+example : DecodeAddress Xtoy (EncodeAddress Xtoy (.pkh (List.replicate 20 0xab) mainNet.slpPrefix)) mainNet
+    = .ok (.pkh (List.replicate 20 0xab) mainNet.slpPrefix) := by decide +kernel
+
 end Bch.Props.C01
